@@ -102,8 +102,8 @@ def streams(tier, rng, fs, profile):
     for ty in ("f64", "f32"):
         p, eb = gens.FLOAT_TYPES[ty]
         sign = 1 << (p + eb - 1)
-        # (a non-`format` build rejects a format with syntax flags: the corpus cannot carry these ops)
-        for bits in ((0, sign, 1, sign | 1, 2, 3, 1 << (p - 2), (1 << (p - 1)) - 1, 1 << (p - 1)) if gens.has_format(fs) else ()):
+        # (a non-`format` build rejects a format with syntax flags: documented panic, skipped by post)
+        for bits in ((0, sign, 1, sign | 1, 2, 3, 1 << (p - 2), (1 << (p - 1)) - 1, 1 << (p - 1)) if gens.has_format(fs) else (0,)):
             for o in (gens.wopts(exp=94), gens.wopts(exp=94, trim=1), gens.wopts(exp=94, mn=5), gens.wopts(exp=94, pb=700, nb=-700)):
                 extra.append("wf %s %x %x %s -" % (ty, REQEXP36, bits, o))
         tiny = [b for b in gens.float_bits_cases(rng, ty, 40, rich=True) if (b & (sign - 1)) >> (p - 1) < 12]
@@ -130,6 +130,8 @@ def post(ctx, bins):
         for i, (op, ir) in enumerate(zip(ops, impl)):
             it = ir.split(" ")
             if it[0] != "ok":
+                if ir == "panic" and drv[i][1] == "panic":
+                    continue      # the specification demands this panic (format with syntax flags on a non-`format` build)
                 viol.append(judges.viol(fs, profile, sname, op, ir, "ok <bytes>", "writer did not succeed"))
                 continue
             ty, fmt, bits, o = judges.wf_fields(op)
